@@ -15,11 +15,15 @@ exported with the real `export()` in every format {dir, tar, tgz, tbz2, txz,
 tlzma, zip} x roots (None -> derived from the destination name, "", nested,
 trailing slash, unicode, long) x sub-directory selections (none, "", every
 directory, trailing slashes, a file, a symlink, a missing path, a string prefix
-of a sibling, "/") x {plain, ContentFilterTree}.  The archive is read back with
+of a sibling, "/", and selections that are no tree path: `/a`, `//a`, `./a`, `a/.`,
+`a//b`) x {plain, ContentFilterTree}.  The archive is read back with
 the Python stdlib and the ORDERED member list (name, kind, content, executable
 bit, link target) is compared with the Lean model run on the real
 `iter_entries_by_dir()` stream (for `dir` the walked directory, sorted).
-`get_root_name` is compared on a table of destination names.  The
+`get_root_name` is compared on a table of destination names plus generated
+`<dir>/<stem><registered ext>` names (stems that themselves end in an
+extension), the registered extension list (order!) is compared with the model's,
+`str.split("/")` with the model's `splitSlash`.  The
 well-formedness hypothesis of the theorems (names free of `/`, unique paths,
 parent directories first) is checked on every real entry stream.
 
@@ -27,8 +31,16 @@ Oracle (independent of _export_iter_entries and of the model): the expected
 members are computed from the revision tree by COMPONENT paths (entries
 strictly below the selection, or the selected non-directory itself, minus the
 paths special to the format) and compared as a set with what was extracted:
-names under the root, kinds, contents (after the per-file filter), executable
-bits, link targets (zip: `<name>.lnk` text members, as the exporter documents).
+RAW member names `<root>/<final path>` for tar and zip (exactly one separator after
+the root, no `//`; only the one trailing `/` marking a zip directory is removed),
+kinds, contents (after the per-file filter), executable bits, link targets (zip:
+`<name>.lnk` text members, as the exporter documents).  For selections that are no
+tree path (`/a`, `./a`, `a//b`, `a/.`) the oracle accepts "nothing" (what the code
+does; proved + tied) or the normalised selection's sub-tree; anything else is a
+violation.  get_root_name: exactly the one registered extension is stripped.
+"Same contents and executable bits" is true BY CONSTRUCTION in the model (the
+members copy the entry's attributes); for that clause the evidence is T2 + oracle
+over the stdlib containers, not a theorem.
 Families: only `zip-symlink-lnk-name-collision` (known finding) is classified; the
 defects fixed by commits 7bb265d (zip exec bit) and c02101e (ContentFilterTree
 delegation) are plain violations if they return ("fix reverted" mutants checked).
@@ -46,6 +58,13 @@ Mutants this was built against (scratch worktrees):
  * `pathjoin(root, final_path)` -> `root + final_path`;
  * get_root_name: strips the first matching extension anywhere (`find`) instead of `endswith`;
  * harmless: `for ... in sorted-equivalent order` rewrites, `rstrip` via while-loop.
+Improvement round (raw-name oracle, end-to-end theorems, root names):
+ * tar: `pathjoin(root, p)` -> `root + "/" + p` when root ends in `/` (`r//x`): oracle;
+ * zip: `pathjoin(root, dp)` -> `root + "/" + dp`: oracle (`r//in-a`);
+ * get_root_name: `dest[:-len(ext)]` -> `dest.split(ext)[0]` (`a.tgz.tgz` -> `a`): oracle;
+ * `subdir.rstrip("/")` -> `subdir.strip("/")` (`//a` selects `a`): fine for the property
+   (oracle accepts), reported as a T2 tie break (model = the code as it is);
+ * harmless: extensions tried shortest first (the registered list is suffix-free): clean.
 """
 import io
 import os
@@ -62,6 +81,10 @@ THEOREMS = [
     "subdir_single_file", "root_prefix", "root_prefix_under", "dir_eq_tar_rootless", "specialOf_mono",
     "zip_names_nodup_partial", "zip_lnk_collision_witness", "prefix_sibling_witness",
     "zip_exec_dropped_witness", "zip_exec_kept",
+    "finals_rel", "export_iter_eq_spec", "tar_export_exact", "dir_export_exact", "zip_export_exact",
+    "root_prefix_export", "tar_export_names_nodup", "zip_export_names_nodup_partial",
+    "export_nonempty_selection_is_path", "export_selection_empty_component", "export_selection_not_in_tree",
+    "rootName_strips_ext", "rootName_no_ext", "rootName_witness",
 ]
 RULE = ("case = (generated revision tree, format, root, sub-directory selection, filtered?); trees are drawn from a "
         "namespace of unusual names; non-trivial = the selection exports >= 2 members; distinct by the canonical "
@@ -118,17 +141,35 @@ def gen_spec(rng):
                     data = ("text of %s\r\nline two\n" % name).encode("utf-8")
                 spec[rel] = ("f", data, rng.random() < 0.3)
     fill("", 0)
-    # make the prefix-sibling and the .lnk corner frequent
-    if rng.random() < 0.35 and "a" not in spec and "ab" not in spec:
-        spec["a"] = ("d", None, False)
-        spec["a/in-a"] = ("f", b"in a\n", False)
-        spec["ab"] = ("d", None, False) if rng.random() < 0.5 else ("f", b"sibling\n", True)
-        if spec["ab"][0] == "d":
-            spec["ab/in-ab"] = ("f", b"in ab\n", False)
-    if rng.random() < 0.06 and "x" not in spec and "x.lnk" not in spec:
+    # make the prefix-sibling and the .lnk corner frequent (each in >= 25 % of the trees), at any depth
+    if rng.random() < 0.45:
+        dirs = sorted(k for k, v in spec.items() if v[0] == "d" and not k.split("/")[0].startswith((".bzr", ".git")))
+        if dirs and rng.random() < 0.7:
+            base = rng.choice(dirs)
+        else:
+            base = "a"
+            if spec.get("a", ("d",))[0] != "d":
+                base = "zz-dir"
+            spec.setdefault(base, ("d", None, False))
+        if not any(k.startswith(base + "/") for k in spec):
+            spec[base + "/in-" + base.split("/")[-1]] = ("f", b"inside\n", False)
+        sib = base + rng.choice(["b", ".lnk", " ", "-x", ".d", "\u00fc"])
+        if sib not in spec:
+            if rng.random() < 0.5:
+                spec[sib] = ("d", None, False)
+                spec[sib + "/in-sibling"] = ("f", b"in the sibling\n", False)
+            else:
+                spec[sib] = ("f", b"sibling\n", rng.random() < 0.5)
+    if rng.random() < 0.3:
         # the zip exporter stores the symlink `x` as a text member `x.lnk`
-        spec["x"] = ("l", "a", False)
-        spec["x.lnk"] = ("f", b"a file called x.lnk\n", False)
+        links = sorted(k for k, v in spec.items() if v[0] == "l" and not k.split("/")[0].startswith((".bzr", ".git")))
+        if links and rng.random() < 0.6:
+            lk = rng.choice(links)
+        else:
+            lk = "x" if "x" not in spec else "zz-link"
+            spec[lk] = ("l", "a", False)
+        if lk + ".lnk" not in spec:
+            spec[lk + ".lnk"] = ("f", b"a file called like the link + .lnk\n", False)
     if ".bzrignore" in spec:
         for k in [k for k in spec if k.startswith(".bzrignore/")]:
             del spec[k]
@@ -283,13 +324,22 @@ def filtered_view(tree):
 # --------------------------------------------------------------------------
 # independent expectation
 
+def root_dir(root):
+    """the directory prefix "under the requested root" puts in front of every member name"""
+    if not root:
+        return ""
+    return root if root.endswith("/") else root + "/"
+
+
 def expected_members(ents, cls, root, subdir, special, filtered):
-    """{normalised name: (kind, content, exec, target)} computed on component paths"""
+    """{RAW member name: [(kind, content, exec, target)]} computed on component paths.  tar / zip member names
+    are compared raw (`<root>/<final path>`, exactly one separator, no `//`, no `./`); only the single trailing
+    `/` that marks a zip directory member is removed by the reader side (`raw_name`)."""
     sc = [c for c in (subdir or "").split("/")] if subdir else []
     while sc and sc[-1] == "":
         sc.pop()
     whole = not subdir
-    rc = [c for c in (root or "").split("/") if c] if cls != "dir" else []
+    rd = root_dir(root) if cls != "dir" else ""
     exp = {}
     for e in ents:
         comps = e["path"].split("/") if e["path"] else []
@@ -307,7 +357,7 @@ def expected_members(ents, cls, root, subdir, special, filtered):
             rel = comps[len(sc):]
         else:
             continue
-        name = "/".join(rc + rel)
+        name = rd + "/".join(rel)
         content = e["content"]
         if filtered and e["kind"] == "f" and e["path"].endswith(FILTER_SUFFIX):
             content = content.upper()
@@ -321,6 +371,15 @@ def expected_members(ents, cls, root, subdir, special, filtered):
 
 def norm_name(n):
     return "/".join(c for c in n.split("/") if c)
+
+
+def raw_name(n, kind, cls):
+    """the member name as stored; a zip directory member is marked by ONE trailing `/`"""
+    if cls == "zip" and kind == "d" and n.endswith("/"):
+        return n[:-1]
+    if cls == "dir":
+        return norm_name(n)
+    return n
 
 
 # --------------------------------------------------------------------------
@@ -362,6 +421,42 @@ def run_export(tree, fmt, dest, root, subdir):
         os.unlink(dest)
         ms = read_zip(data) if fmt == "zip" else read_tar(data)
     return "ok", ms
+
+
+AMBIGUOUS = ("leading-slash", "dot-prefix", "dot-suffix", "double-slash")
+
+
+def normalise_selection(subdir):
+    return "/".join(c for c in subdir.split("/") if c not in ("", "."))
+
+
+def compare_members(exp, got, cls):
+    """None if the extraction is exactly the expectation, else (what, family) for the first difference"""
+    for n in sorted(set(exp) | set(got)):
+        e_, g_ = exp.get(n, []), got.get(n, [])
+        if e_ == g_ and len(g_) <= 1:
+            continue
+        fam = None
+        if not g_:
+            what = "member %r (%s) of the tree is missing from the export" % (n, e_[0][0])
+        elif not e_:
+            what = "export contains %r which is not in the selected tree" % (n,)
+        elif len(e_) > 1 or len(g_) > 1:
+            what = "member name %r occurs %d times in the export (%d tree entries map to it)" % (n, len(g_), len(e_))
+            if cls == "zip" and n.endswith(".lnk") and len(e_) == len(g_) and sorted(e_) == sorted(g_):
+                fam = "zip-symlink-lnk-name-collision"
+        else:
+            (ek, ec, ex_, et), (gk, gc, gx, gt) = e_[0], g_[0]
+            if (ek, ec, et) == (gk, gc, gt) and ex_ != gx:
+                what = "executable bit of %r is %s in the export, %s in the tree" % (n, gx, ex_)
+            elif ek != gk:
+                what = "%r is exported as kind %s, the tree has %s" % (n, gk, ek)
+            elif ec != gc:
+                what = "content of %r differs (%d bytes exported, %d expected)" % (n, len(gc), len(ec))
+            else:
+                what = "link target of %r is %r, the tree has %r" % (n, gt, et)
+        return what, fam
+    return None
 
 
 def check_one(ctx, T, fmt, root, subdir, filtered, destname=None, oracle=True):
@@ -408,33 +503,17 @@ def check_one(ctx, T, fmt, root, subdir, filtered, destname=None, oracle=True):
     if oracle and subdir != "/":
         got = {}
         for n, k, c, x, t in ms:
-            got.setdefault(norm_name(n), []).append((k, c, x, t))
-        for n in sorted(set(exp) | set(got)):
-            e_, g_ = exp.get(n, []), got.get(n, [])
-            if e_ == g_ and len(g_) <= 1:
-                continue
-            fam = None
-            what = None
-            if not g_:
-                what = "member %r (%s) of the tree is missing from the export" % (n, e_[0][0])
-            elif not e_:
-                what = "export contains %r which is not in the selected tree" % (n,)
-            elif len(e_) > 1 or len(g_) > 1:
-                what = "member name %r occurs %d times in the export (%d tree entries map to it)" % (n, len(g_), len(e_))
-                if cls == "zip" and n.endswith(".lnk") and len(e_) == len(g_) and sorted(e_) == sorted(g_):
-                    fam = "zip-symlink-lnk-name-collision"
-            else:
-                (ek, ec, ex_, et), (gk, gc, gx, gt) = e_[0], g_[0]
-                if (ek, ec, et) == (gk, gc, gt) and ex_ != gx:
-                    what = "executable bit of %r is %s in the export, %s in the tree" % (n, gx, ex_)
-                elif ek != gk:
-                    what = "%r is exported as kind %s, the tree has %s" % (n, gk, ek)
-                elif ec != gc:
-                    what = "content of %r differs (%d bytes exported, %d expected)" % (n, len(gc), len(ec))
-                else:
-                    what = "link target of %r is %r, the tree has %r" % (n, gt, et)
+            got.setdefault(raw_name(n, k, cls), []).append((k, c, x, t))
+        verdicts = [compare_members(exp, got, cls)]
+        if verdicts[0] and T["subkinds"].get(subdir) in AMBIGUOUS:
+            # a selection that is no tree path (`/a`, `./a`, `a//b`, `a/.`): the code exports nothing (proved:
+            # export_selection_empty_component / export_selection_not_in_tree, tied by T2); the property itself is
+            # equally satisfied by an exporter that normalises the selection first
+            alt = expected_members(ents, cls, eff_root, normalise_selection(subdir), special, filtered)
+            verdicts.append(compare_members(alt, got, cls))
+        if all(verdicts):
+            what, fam = verdicts[0]
             _violation(ctx, case, what, family=fam)
-            break
         # every directory member precedes its children (archives keep the order)
         if cls != "dir":
             seen = set()
@@ -485,6 +564,20 @@ def subdir_choices(ents, rng):
         out[p] = "symlink"
     out["no/such"] = "missing"
     out["/"] = "slash-only"
+    # selections that are no tree path: leading slash, doubled separator, `.` components
+    # (the theorems export_selection_empty_component / export_selection_not_in_tree: nothing is exported)
+    allp = [e["path"] for e in ents if e["path"] and not e["path"].startswith((".bzr", ".git"))]
+    for p in rng.sample(allp, min(2, len(allp))):
+        out.setdefault("/" + p, "leading-slash")
+    for p in rng.sample(allp, min(1, len(allp))):
+        out.setdefault("./" + p, "dot-prefix")
+    for p in rng.sample(dirs, min(1, len(dirs))):
+        out.setdefault(p + "/.", "dot-suffix")
+        out.setdefault("//" + p, "leading-slash")
+    nested = [p for p in allp if "/" in p]
+    for p in rng.sample(nested, min(2, len(nested))):
+        out.setdefault(p.replace("/", "//", 1), "double-slash")
+        out.setdefault(p.rsplit("/", 1)[0] + "//", "dir-slash")
     paths = {e["path"] for e in ents}
     for p in sorted(paths):
         # a selection that is a proper string prefix of a sibling name
@@ -555,11 +648,32 @@ def drop_T(T):
 
 
 def root_table(ctx):
+    from breezy import archive
     from breezy.export import get_root_name, guess_format
+    rng = ctx.rng
     dests = ["-", "a", "a.tar", "d/a.tar.gz", "a.tgz", "a.tar.bz2", "a.tbz2", "a.tar.lzma", "a.tar.xz", "a.zip",
              "a.tar.zip", "a.zip.tar", "a.tar.gz.old", ".tar", "tar", "x/.zip", "a.tar/b", "a.TAR", "d.zip/", "a.tgz.tgz",
              "ü.tar.xz", "a b.zip", "a.tar.", "a.tar.g", "gz", "a.gz", "a.bz2", "-.tar", "--"]
+    exts = list(archive.format_registry.extensions)
+    stems = ["a", "a b", "\u00fc", "a.tar", "x.tgz", ".hidden", "a.", "-"]
+    for ext in exts:
+        for st in rng.sample(stems, 3):
+            dests.append(rng.choice(["", "d/", "/abs/d.zip/", "./"]) + st + ext)
     cases, lines, impls = [], [], []
+    # the registered extensions, in registration order (first match wins in get_root_name)
+    cases.append(dict(op="exts")); lines.append("exts"); impls.append("|".join(hx(e) for e in exts))
+    if any(a != b and a.endswith(b) for a in exts for b in exts):
+        ctx.assumptions.append("registered archive extensions are NOT suffix-free on this tree: rootName_strips_ext does not apply")
+        ctx.mismatch(dict(op="exts"), "|".join(exts), "suffix-free list expected (theorem ext_suffix_free)")
+    for t in ["", "/", "a", "a/b", "/a", "a//b", "a/", "//", "./a", "a/.", "\u00fc/ b/", "a/b//c/d"]:
+        cases.append(dict(op="split", s=t)); lines.append("split %s" % hx(t)); impls.append("|".join(hx(c) for c in t.split("/")))
+    for d in dests:
+        if d != "-" and "/" not in os.path.basename(d):
+            for ext in exts:
+                b = os.path.basename(d)
+                if b.endswith(ext) and get_root_name(d) != b[:-len(ext)]:
+                    # rootName_strips_ext: exactly the one registered extension is stripped, whatever the stem
+                    ctx.violation(dict(op="root", dest=d), "get_root_name(%r) = %r, expected %r" % (d, get_root_name(d), b[:-len(ext)]))
     for d in dests:
         cases.append(dict(op="root", dest=d))
         lines.append("root %s" % hx(d))
@@ -574,11 +688,17 @@ def root_table(ctx):
     ctx.diff(cases, lines, impls)
 
 
+NOTHING = AMBIGUOUS + ("missing", "slash-only")
+
+
 def combos_for(ctx, T, n):
     rng = T["rng"]
-    subs = list(T["subkinds"])
+    real = [s for s, k in T["subkinds"].items() if k not in NOTHING]
+    nothing = [s for s, k in T["subkinds"].items() if k in NOTHING]
+    rng.shuffle(nothing)
+    # every real selection once and up to n/4 selections that denote nothing; formats round robin
+    subs = real + nothing[:max(3, n // 4)]
     out = []
-    # every selection once, formats round robin
     fmts = FORMATS[:]
     rng.shuffle(fmts)
     i = 0
@@ -586,11 +706,10 @@ def combos_for(ctx, T, n):
         out.append((fmts[i % len(fmts)], rng.choice(ROOTS), s, rng.random() < 0.2))
         i += 1
     while len(out) < n:
-        out.append((rng.choice(FORMATS), rng.choice(ROOTS), rng.choice(subs), rng.random() < 0.25))
+        out.append((rng.choice(FORMATS), rng.choice(ROOTS), rng.choice(real), rng.random() < 0.25))
     if len(out) > n:
-        head = out[:len(subs)]
-        rng.shuffle(head)
-        out = head[:n]
+        rng.shuffle(out)
+        out = out[:n]
     return out
 
 
@@ -599,8 +718,8 @@ def run(ctx, ntrees=None, per_tree=None):
     _FAMILY_SEEN.clear()
     probe_zip_exec(ctx)
     root_table(ctx)
-    ntrees = ntrees or ctx.pick(36, 300)
-    per_tree = per_tree or ctx.pick(12, 40)
+    ntrees = ntrees or ctx.pick(48, 300)
+    per_tree = per_tree or ctx.pick(16, 40)
     cases, lines, impls, clss = [], [], [], []
     for i in range(ntrees):
         fmt = "git" if i % 4 == 3 else "2a"
@@ -640,6 +759,11 @@ def replay(ctx, case):
         from breezy.export import get_root_name
         m = ctx.model(["root %s" % hx(case["dest"])])[0]
         return dict(case=case, impl=hx(get_root_name(case["dest"])), model=m)
+    if case.get("op") == "exts":
+        from breezy import archive
+        return dict(case=case, impl="|".join(hx(e) for e in archive.format_registry.extensions), model=ctx.model(["exts"])[0])
+    if case.get("op") == "split":
+        return dict(case=case, impl="|".join(hx(c) for c in case["s"].split("/")), model=ctx.model(["split %s" % hx(case["s"])])[0])
     probe_zip_exec(ctx)
     seed = tuple(case["tree"])
     T = make_T(ctx, seed[1], seed)
